@@ -122,7 +122,7 @@ prop("C08", [
 ], ["the simulated kernel never hands out request sequence 0 (the kernel uses 0 for unsolicited events)",
     "'identifies the errno' = errors.Is(err, errno), plus AddRule's documented 'rule exists' text for EEXIST",
     "at most 9 transient receive failures in a row (the property's bound); EAGAIN is rationed because the client sleeps 50 ms on it"],
-   nontrivial_classes=["op-with-errno", "op-with-foreign-reply", "op-with-interleaved-events", "op-with-transient-failures"] +
+   nontrivial_classes=["op-with-errno", "op-with-foreign-reply", "op-with-interleaved-events", "op-with-transient-failures", "op-with-fault-send", "op-with-fault-recv", "op-with-fault-shortack", "op-with-fault-acktype"] +
                       ["op-" + o for o in ["GetStatus", "GetRules", "AddRule", "DeleteRule", "DeleteRules", "SetPID", "SetRateLimit", "SetBacklogLimit",
                                             "SetEnabled", "SetImmutable", "SetFailure", "SetBacklogWaitTime"]])
 
